@@ -5,7 +5,7 @@ package main
 //
 //	registrationsG?   the plugin names `Import` registers with `register.Provider` and the decoder constant each factory
 //	                  writes into `cfg.Decoder` before it calls `NewProvider` (none = the factory leaves the option alone)
-//	decoderTypesG     the constants of type config.DecoderType (name, value) and the set `IsValid` accepts
+//	decoderTypesG     the constants of type config.DecoderType (name, value); validDecodersG? the set `IsValid` accepts
 //	urisSepG?         the separator `uriReadSeekCloser` joins the `uris` option with
 //	…IndexBits?       how many value bits the delivery counters have: the narrowest integer type that occurs in the index
 //	                  expression of `p.ammos[i]` (runPreloaded), of `d.ammos[i]` (jsonline scanAmmos) and in the operand
@@ -365,7 +365,11 @@ func ammodecR4(t *tr) string {
 	sort.Strings(consts)
 	sort.Strings(valid)
 	w("/-- constants of type `config.DecoderType` (Go name, value), sorted -/\ndef decoderTypesG : List (String × String) := [%s]\n\n", strings.Join(consts, ", "))
-	w("/-- the values `DecoderType.IsValid` accepts (switch cases that return true), sorted; [] = not a switch over constants -/\ndef validDecodersG : List String := [%s]\n\n", strings.Join(valid, ", "))
+	if len(valid) > 0 {
+		w("/-- the values `DecoderType.IsValid` accepts (switch cases that return true), sorted; none = not written as a switch over constants in this source -/\ndef validDecodersG? : Option (List String) := some [%s]\n\n", strings.Join(valid, ", "))
+	} else {
+		w("/-- the values `DecoderType.IsValid` accepts; none = not written as a switch over constants in this source -/\ndef validDecodersG? : Option (List String) := none\n\n")
+	}
 
 	// ---- uris separator
 	sep := "none"
